@@ -166,6 +166,15 @@ func unsupportedKind(v stick.Value) bool {
 		return false
 	}
 	rv := reflect.ValueOf(v)
+	if rv.Kind() != reflect.Ptr {
+		// a type of any kind that says how it coerces is supported (net.IP is a slice with a String method)
+		_, a := v.(stick.Stringer)
+		_, b := v.(stick.Number)
+		_, c := v.(stick.Boolean)
+		if a || b || c {
+			return false
+		}
+	}
 	switch rv.Kind() {
 	case reflect.Ptr:
 		return rv.IsNil()
